@@ -9,6 +9,7 @@
 #include "MainSolver.h"
 
 #include <common/ApiException.h>
+#include <common/VerifTrace.h>
 #include <itehandler/IteHandler.h>
 #include <logics/ArrayTheory.h>
 #include <logics/LATheory.h>
@@ -62,6 +63,16 @@ void MainSolver::initialize() {
     preprocessor.initialize();
     smt_solver->initialize();
     pair<CRef, CRef> iorefs{CRef_Undef, CRef_Undef};
+#ifdef OPENSMT_VERIF
+    if (VERIF_ON()) {
+        VERIF_TERM(logic, logic.getTerm_true());
+        VERIF_TERM(logic, logic.getTerm_false());
+        VERIF_LINE("i %p 0 %p %u %u %d 0", static_cast<void const *>(static_cast<CoreSMTSolver const *>(smt_solver.get())), static_cast<void const *>(&logic), logic.getTerm_true().x,
+                   logic.getTerm_true().x, opensmt::verif::lit2int(term_mapper->getOrCreateLit(logic.getTerm_true())));
+        VERIF_LINE("i %p 0 %p %u %u %d 0", static_cast<void const *>(static_cast<CoreSMTSolver const *>(smt_solver.get())), static_cast<void const *>(&logic), logic.getTerm_true().x,
+                   logic.getTerm_true().x, opensmt::verif::lit2int(~term_mapper->getOrCreateLit(logic.getTerm_false())));
+    }
+#endif
     smt_solver->addOriginalSMTClause({term_mapper->getOrCreateLit(logic.getTerm_true())}, iorefs);
     if (iorefs.first != CRef_Undef) { pmanager.addClauseClassMask(iorefs.first, 1); }
 
@@ -76,6 +87,7 @@ void MainSolver::push() {
     frameTerms.push(newFrameTerm(frames.last().getId()));
     termNames.pushScope();
     if (alreadyUnsat) { rememberLastFrameUnsat(); }
+    VERIF_LINE("fr %p push %u", static_cast<void const *>(this), static_cast<unsigned>(frames.last().getId()));
 }
 
 bool MainSolver::pop() {
@@ -93,6 +105,7 @@ bool MainSolver::pop() {
     frames.pop();
     preprocessor.pop();
     termNames.popScope();
+    VERIF_LINE("fr %p pop %u", static_cast<void const *>(this), static_cast<unsigned>(frames.frameCount()));
     firstNotSimplifiedFrame = std::min(firstNotSimplifiedFrame, frames.frameCount());
     if (not isLastFrameUnsat()) { getSMTSolver().restoreOK(); }
     return true;
@@ -104,6 +117,13 @@ std::size_t MainSolver::getAssertionLevel() const {
 }
 
 void MainSolver::insertFormula(PTRef fla) {
+#ifdef OPENSMT_VERIF
+    if (VERIF_ON()) {
+        VERIF_TERM(logic, fla);
+        VERIF_LINE("as %p %u %p %u", static_cast<void const *>(this), static_cast<unsigned>(frames.frameCount() - 1),
+                   static_cast<void const *>(&logic), fla.x);
+    }
+#endif
     if (logic.getSortRef(fla) != logic.getSort_bool()) {
         throw ApiException("Top-level assertion sort must be Bool, got " + logic.sortToString(logic.getSortRef(fla)));
     }
@@ -324,6 +344,16 @@ sstat MainSolver::giveToSolver(PTRef root, FrameId push_id) {
     int partitionIndex = keepPartitionsSeparate ? pmanager.getPartitionIndex(root) : -1;
     for (auto & clause : callBack.clauses) {
         if (push_id != 0) { clause.push(frameLit); }
+#ifdef OPENSMT_VERIF
+        if (VERIF_ON()) {
+            VERIF_TERM(logic, root);
+            VERIF_TERM(logic, frameTerms[push_id]);
+            char verifPrefix[96];
+            std::snprintf(verifPrefix, sizeof verifPrefix, "%u %p %u %u", static_cast<unsigned>(push_id),
+                          static_cast<void const *>(&logic), root.x, frameTerms[push_id].x);
+            VERIF_CLAUSE_S("i", static_cast<void const *>(static_cast<CoreSMTSolver const *>(smt_solver.get())), verifPrefix, clause, clause.size());
+        }
+#endif
         pair<CRef, CRef> iorefs{CRef_Undef, CRef_Undef};
         bool res = smt_solver->addOriginalSMTClause(std::move(clause), iorefs);
         if (keepPartitionsSeparate) {
@@ -341,6 +371,7 @@ sstat MainSolver::giveToSolver(PTRef root, FrameId push_id) {
 }
 
 sstat MainSolver::check() {
+    VERIF_LINE("chk %p %p", static_cast<void const *>(this), static_cast<void const *>(static_cast<CoreSMTSolver const *>(smt_solver.get())));
     ++check_called;
     if (config.timeQueries()) {
         printf("; %s query time so far: %f\n", solver_name.c_str(), query_timer.getTime());
